@@ -319,6 +319,21 @@ fn run_sink_scenario(out: &mut Out, scn: &Value, tag: usize) {
         format,
         file_flush_rate: Some(scn["flush"].as_i64().unwrap_or(1)),
     };
+    // every other scenario writes through a combined policy: the checked file first, a second file in the other format after it
+    let policy = if scn["combined"].as_bool().unwrap_or(false) {
+        let other: ResponseOutputFormat = if fmt == "json" {
+            serde_json::from_value(json!({"type": "csv", "sorted": false, "mapping": {"Rid": "rid"}})).unwrap()
+        } else {
+            serde_json::from_value(json!({"type": "json", "newline_delimited": true})).unwrap()
+        };
+        let p2 = dir.join(format!("sink-second-{}.txt", tag));
+        let _ = std::fs::remove_file(&p2);
+        ResponseOutputPolicy::Combined {
+            policies: vec![Box::new(policy), Box::new(ResponseOutputPolicy::File { filename: p2.to_str().unwrap().to_string(), format: other, file_flush_rate: Some(1) })],
+        }
+    } else {
+        policy
+    };
     let mut next_rid = 1i64;
     for rep in 0..scn["reps"].as_u64().unwrap_or(1) {
         let sink = Arc::new(policy.build().unwrap());
@@ -452,7 +467,7 @@ pub fn main(args: &[String]) -> i32 {
         for i in 0..n {
             let flush = [1, 3, 1000][r.gen_range(0..3)];
             let s = json!({"threads": r.gen_range(2..=16), "rows": r.gen_range(3..=40), "fmt": if r.gen_bool(0.7) {"json"} else {"csv"},
-                           "sorted": r.gen_bool(0.5), "flush": flush, "reps": r.gen_range(1..=2)});
+                           "sorted": r.gen_bool(0.5), "flush": flush, "reps": r.gen_range(1..=2), "combined": r.gen_bool(0.5)});
             run_sink_scenario(&mut out, &s, i);
         }
     } else {
